@@ -187,7 +187,7 @@ def inputs_for(v, prop, tier, tag):
             items.append({"max": mx, "endings": endings})
             items.append({"max": mx, "endings": [rnd.choice(endings) for _ in range(6 if q else 14)]})
     elif prop == "C16":
-        sts = ["idle", "mid-frame", "pipelined-partial", "pipelined-partial-big", "mid-command", "writing-reply"]
+        sts = ["idle", "mid-frame", "pipelined-partial", "pipelined-partial-big", "mid-command", "mid-command-long", "writing-reply"]
         for s in sts:
             items.append({"states": [s]})
             items.append({"states": [s, s]})
